@@ -66,6 +66,18 @@ const IGNORES: &[&str] = &[
     "/a/\n", "",
 ];
 
+/// Permission modes for files the edits create or chmod. jj's rule (ExecBit::new_from_disk):
+/// executable iff ANY of the three x bits is set — the pool has modes whose only x bits are
+/// group/other (0654, 0645, 0611, 0655, 0676, 0667) and owner-only ones (0744, 0700).
+const MODES: &[u32] = &[
+    0o644, 0o755, 0o744, 0o654, 0o645, 0o611, 0o700, 0o600, 0o655, 0o666, 0o676, 0o667, 0o711, 0o640,
+];
+
+/// Mostly plain 0644, otherwise any mode of the pool.
+fn new_file_mode(rng: &mut Rng) -> u32 {
+    if rng.chance(2, 3) { 0o644 } else { *rng.pick(MODES) }
+}
+
 fn rel_path(rng: &mut Rng, depth_max: u64) -> Vec<&'static str> {
     let mut v = vec![];
     for _ in 0..rng.below(depth_max + 1) {
@@ -126,12 +138,12 @@ impl Hist {
             let _ = f.set_modified(t);
         }
     }
-    fn write_file(&mut self, comps: &[&str], content: &[u8], exec: bool) {
+    /// `mode` is set explicitly after creation (independent of the umask).
+    fn write_file(&mut self, comps: &[&str], content: &[u8], mode: u32) {
         make_parents(&self.wc.clone(), comps);
         let p = join(&self.wc, comps);
         remove_any(&p);
         fs::write(&p, content).unwrap();
-        let mode = if exec { 0o755 } else { 0o644 };
         fs::set_permissions(&p, fs::Permissions::from_mode(mode)).unwrap();
         self.bump_mtime(&p);
         self.touch(comps);
@@ -175,7 +187,7 @@ fn random_edit(h: &mut Hist, rng: &mut Rng) -> &'static str {
     let as_refs = |v: &Vec<String>| -> Vec<&'static str> {
         v.iter().map(|s| -> &'static str { Box::leak(s.clone().into_boxed_str()) }).collect()
     };
-    match rng.below(17) {
+    match rng.below(19) {
         0 | 1 | 2 => {
             // new or overwritten file somewhere
             let mut comps = rel_path(rng, 2);
@@ -187,7 +199,7 @@ fn random_edit(h: &mut Hist, rng: &mut Rng) -> &'static str {
             } else {
                 format!("c{:02}", rng.below(6))
             };
-            h.write_file(&comps, content.as_bytes(), rng.chance(1, 6));
+            { let mode = new_file_mode(rng); h.write_file(&comps, content.as_bytes(), mode); }
             "write"
         }
         3 | 4 => {
@@ -205,19 +217,25 @@ fn random_edit(h: &mut Hist, rng: &mut Rng) -> &'static str {
             let mut new = old.clone();
             new[1] = b'0' + ((old[1].wrapping_sub(b'0') % 6 + 1 + rng.below(3) as u8) % 6);
             new[2] = b'0' + rng.below(10) as u8;
-            let exec = p.metadata().unwrap().permissions().mode() & 0o111 != 0;
-            h.write_file(&f, &new, exec);
+            // replaced in place: keep the mode, or draw a new one
+            let old_mode = p.metadata().unwrap().permissions().mode() & 0o777;
+            let mode = if rng.chance(3, 4) { old_mode } else { *rng.pick(MODES) };
+            h.write_file(&f, &new, mode);
             "modify same size"
         }
-        5 => {
+        5 | 17 | 18 => {
             let regular: Vec<Vec<String>> = files.iter().filter(|f| join(&h.wc, &as_refs(f)).symlink_metadata().unwrap().is_file()).cloned().collect();
             if regular.is_empty() {
                 return "noop";
             }
             let f = as_refs(rng.pick(&regular));
             let p = join(&h.wc, &f);
-            let exec = p.metadata().unwrap().permissions().mode() & 0o111 != 0;
-            let mode = if exec { 0o644 } else { 0o755 };
+            // mode-only change of an existing file (content and mtime untouched)
+            let old_mode = p.metadata().unwrap().permissions().mode() & 0o777;
+            let mut mode = *rng.pick(MODES);
+            if mode == old_mode {
+                mode = if old_mode & 0o111 != 0 { 0o644 } else { 0o654 };
+            }
             fs::set_permissions(&p, fs::Permissions::from_mode(mode)).unwrap();
             h.touch(&f);
             "chmod"
@@ -245,7 +263,7 @@ fn random_edit(h: &mut Hist, rng: &mut Rng) -> &'static str {
             remove_any(&join(&h.wc, &d));
             if rng.chance(1, 2) {
                 // directory -> file
-                h.write_file(&d, format!("c{:02}", rng.below(6)).as_bytes(), false);
+                { let mode = new_file_mode(rng); h.write_file(&d, format!("c{:02}", rng.below(6)).as_bytes(), mode); }
                 "dir -> file"
             } else {
                 "delete dir"
@@ -263,14 +281,14 @@ fn random_edit(h: &mut Hist, rng: &mut Rng) -> &'static str {
             remove_any(&join(&h.wc, &f));
             h.touch(&f);
             f.push(*rng.pick(FILES));
-            h.write_file(&f, format!("c{:02}", rng.below(6)).as_bytes(), false);
+            { let mode = new_file_mode(rng); h.write_file(&f, format!("c{:02}", rng.below(6)).as_bytes(), mode); }
             "file -> dir"
         }
         11 | 12 => {
             let mut comps = rel_path(rng, 2);
             comps.push(".gitignore");
             let text = *rng.pick(IGNORES);
-            h.write_file(&comps, text.as_bytes(), false);
+            h.write_file(&comps, text.as_bytes(), 0o644);
             "gitignore"
         }
         13 => {
@@ -314,9 +332,9 @@ fn random_edit(h: &mut Hist, rng: &mut Rng) -> &'static str {
             if rng.chance(1, 2) {
                 remove_any(&join(&h.wc, &["sm"]));
                 h.touch(&["sm"]);
-                h.write_file(&["sm", "f"], b"c01", false);
+                h.write_file(&["sm", "f"], b"c01", 0o644);
             } else {
-                h.write_file(&["sm"], b"c02", false);
+                h.write_file(&["sm"], b"c02", 0o644);
             }
             "at submodule path"
         }
@@ -332,6 +350,29 @@ fn random_edit(h: &mut Hist, rng: &mut Rng) -> &'static str {
             "mkdir"
         }
     }
+}
+
+/// Does the tree (outside .jj) hold a regular file that is executable through its group/other
+/// bits only? (Such a file distinguishes jj's any-x-bit rule from an owner-bit test.)
+fn has_go_only_exec(dir: &Path, top: bool) -> bool {
+    for e in fs::read_dir(dir).unwrap() {
+        let e = e.unwrap();
+        if top && e.file_name() == ".jj" {
+            continue;
+        }
+        let md = e.path().symlink_metadata().unwrap();
+        if md.is_dir() {
+            if has_go_only_exec(&e.path(), false) {
+                return true;
+            }
+        } else if md.is_file() {
+            let m = md.permissions().mode();
+            if m & 0o100 == 0 && m & 0o011 != 0 {
+                return true;
+            }
+        }
+    }
+    false
 }
 
 fn qpath(comps: &[String]) -> String {
@@ -504,10 +545,25 @@ fn main() {
                     // replaced by a file is deleted, not an error"): b/ becomes ignored, its
                     // subdirectory b/d is replaced by a regular file; b/d/f and b/d/a/g must be
                     // recorded as deleted, b/g stays, the new file b/d is ignored (untracked).
-                    h.write_file(&[".gitignore"], b"b/\n", false);
+                    h.write_file(&[".gitignore"], b"b/\n", 0o644);
                     remove_any(&join(&h.wc, &["b", "d"]));
-                    h.write_file(&["b", "d"], b"c05", false);
+                    h.write_file(&["b", "d"], b"c05", 0o644);
                     kinds.push("corpus: dir -> file below ignored dir");
+                } else if hidx == 0 {
+                    // corpus cases (indices 1..3): the executable flag follows ANY x bit. `f` is
+                    // tracked and visited by the directory scan, `b/g` is tracked below the
+                    // ignored directory b/ (visit_tracked_files). Contents and mtimes stay.
+                    let (mode_f, mode_g) = match round {
+                        1 => (0o654, 0o755), // f: 0644 -> g+x only: executable; b/g: executable
+                        2 => (0o611, 0o655), // f: go+x only; b/g: u-x but go+x: still executable
+                        _ => (0o600, 0o644), // both: no x bit left: not executable
+                    };
+                    for (comps, mode) in [(&["f"][..], mode_f), (&["b", "g"][..], mode_g)] {
+                        let p = join(&h.wc, comps);
+                        fs::set_permissions(&p, fs::Permissions::from_mode(mode)).unwrap();
+                        h.touch(comps);
+                    }
+                    kinds.push("corpus: chmod group/other x bits");
                 } else {
                     for _ in 0..rng.range(1, 5) {
                         kinds.push(random_edit(&mut h, &mut rng));
@@ -578,6 +634,9 @@ fn main() {
                             coq::b(failed),
                         ],
                     );
+                    if has_go_only_exec(&wc, true) {
+                        ctx.count("disk has a file executable via group/other bits only");
+                    }
                     kinds.sort();
                     kinds.dedup();
                     for k in &kinds {
